@@ -10,7 +10,7 @@ use serde_json::Value;
 pub fn def() -> PropDef {
     PropDef {
         id: "C02",
-        rule: "inputs: (a) valid ADC v3 packets (long and 16-byte form, suppression on/off, keep_bit, keep_last anywhere in its legal range) with 0-3 one-rule mutations and 0-2 byte edits (set, flip, truncate, extend, 2-16 neighbouring bytes all ones / zeroes, the same value in one lane of two words), every case decoded on the worker thread and as the first packet of a fresh thread; (b) every cell of the decision table length-class x suppression x keep_bit x keep_last{0,1,33,34,35,boundary-1,boundary,boundary+1,4094,4095} x requested{0,1,2,n+1,n+2,n+3,65535} x n{0,63,64,65,200} x baseline{floor,floor+-1,trunc} x 3 sample-content kinds; oracle: reference validator agrees on accept/reject, accessors equal reference fields, re-encoding reproduces the bytes; non-trivial = accepted packets and packets rejected with at most one mutation (one deciding rule), distinct by byte-content hash",
+        rule: "inputs: (a) valid ADC v3 packets (long and 16-byte form, suppression on/off, keep_bit, keep_last anywhere in its legal range; 0-400 samples, 65529-65535 samples - the largest packets of the format - and 65536 + k) with 0-3 one-rule mutations and 0-2 byte edits (set, flip, truncate, extend, 2-16 neighbouring bytes all ones / zeroes, the same value in one lane of two words), every case decoded on the worker thread and as the first packet of a fresh thread; (b) every cell of the decision table length-class x suppression x keep_bit x keep_last{0,1,33,34,35,boundary-1,boundary,boundary+1,4094,4095} x requested{0,1,2,n+1,n+2,n+3,65535} x n{0,63,64,65,200} x baseline{floor,floor+-1,trunc} x 3 sample-content kinds; oracle: reference validator agrees on accept/reject, accessors equal reference fields, re-encoding reproduces the bytes; non-trivial = accepted packets and packets rejected with at most one mutation (one deciding rule), distinct by byte-content hash",
         assumptions: &["the reference validator (oracles::adc::ref_adc) transcribes the rule list of the property statement"],
         run,
         replay,
@@ -20,7 +20,7 @@ pub fn def() -> PropDef {
 fn case_oracle(c: &gen::AdcCase, ev: &mut Ev) -> Outcome {
     ev.eval();
     let b = c.bytes();
-    let label = diff_both(detdiff::adc, &b, 1, ev, "adc")?;
+    let label = diff_both(detdiff::adc, &b, 2, ev, "adc")?;
     if label == "ok" || c.muts.len() + c.edits.len() <= 1 {
         ev.nontrivial(fingerprint(&b));
     }
